@@ -45,6 +45,20 @@ def run_case(rng, tier, case):
             if mon_balance_raw(case, ev.snap, ev.ret.x):
                 nt = True
     case.event('optimize', r.rec.counts['optimize']); case.event('extract', r.rec.counts['extract'])
+    if gen.is_mip(spec) and not split and rng.random() < 0.5:
+        # "every solution returned": also the solution of the documented relaxed run (make_soft_problem) of the same problem object
+        import eaopack.io as eio
+        from ..canon import Snap
+        try:
+            with env.quiet():
+                res_s = r.op.optimize(make_soft_problem=True)
+                out_s = None if isinstance(res_s, str) else eio.extract_output(r.built.portfolio, r.op, res_s, r.built.prices)
+        except Exception as e:
+            case.check('balance.relaxed_run_works', False, error='%s: %s' % (type(e).__name__, str(e)[:160])); res_s = 'failed'; out_s = None
+        if not isinstance(res_s, str):
+            case.feature('relaxed_run')
+            mon_balance_raw(case, Snap(r.op), res_s.x, clause='balance.raw_relaxed_run')
+            mon_balance_output(case, r.built.portfolio, out_s, clause='balance.output_relaxed_run')
     if rng.random() < 0.25:
         # "every solution returned": the same Portfolio object is set up and solved again after the user changed a factor on an asset object
         # (transport efficiency, commodity factors) - the second solution must balance with the NEW factors
